@@ -69,7 +69,10 @@ def run(chk: Check) -> None:
             # a shallow-copied namespace shares its _ports dict with the source: it must get a fresh container before anything is absorbed into it
             resets = [n for n in cfg.nodes if n.kind == 'stmt' and isinstance(n.ast, ast.Assign) and norm(n.ast.targets[0]).endswith('._ports') and norm(n.ast.value) in ('{}', 'dict()')]
             absorbs = [n for n in cfg.nodes if any(last_name(c) == 'absorb' for c in _calls(n))]
-            ok2 = bool(resets) and bool(absorbs) and all(cfg.must_pass(s, [a], lambda x: x in resets, edge_ok=no_exc) for a in absorbs)
+            # from the shallow copy every way onwards (next port, or the end of absorb) passes the reset AND the recursive absorb
+            onward = [n for n in cfg.nodes if n.kind == 'iter'] + [cfg.exit]
+            ok2 = bool(resets) and bool(absorbs) and all(cfg.must_pass(s, [a], lambda x: x in resets, edge_ok=no_exc) for a in absorbs) and \
+                cfg.must_pass(s, onward, lambda x: x in resets, edge_ok=no_exc) and cfg.must_pass(s, onward, lambda x: x in absorbs, edge_ok=no_exc)
             chk.ob('PROV-copies-only', ab, ok2, 'the shallow-copied namespace receives a fresh port container before the recursive absorb fills it (otherwise it would write into '
                    'the source namespace\'s own container)', node=s.ast, kind='fresh-container')
             # the object reset / absorbed into is the copy just stored
